@@ -101,7 +101,7 @@ var c15Shapes = []struct {
 	{"Publish", []string{"none", "leader", "paused", "cursors"}},
 	{"PublishAsync", []string{"one", "two", "paused", "cursors"}},
 	{"PublishToSubject", []string{"subj"}},
-	{"SetCursor", []string{"set"}},
+	{"SetCursor", []string{"set", "nocursorspublish"}},
 	{"FetchCursor", []string{"get"}},
 	{"JoinConsumerGroup", []string{"newgroup", "existing"}},
 	{"LeaveConsumerGroup", []string{"victim"}},
@@ -124,7 +124,7 @@ var c15Expected = map[string]string{
 	"PublishAsync/one": "natsPublish", "PublishAsync/two": "natsPublish", "PublishAsync/paused": "resumeStream",
 	// the server's own streams are resources like any other: a publish straight into the cursors stream is a stored cursor record
 	"Publish/cursors": "natsPublish", "PublishAsync/cursors": "natsPublish",
-	"PublishToSubject/subj": "natsPublish", "SetCursor/set": "setCursor", "FetchCursor/get": "getCursor",
+	"PublishToSubject/subj": "natsPublish", "SetCursor/set": "setCursor", "SetCursor/nocursorspublish": "setCursor", "FetchCursor/get": "getCursor",
 	"JoinConsumerGroup/newgroup": "joinGroup", "JoinConsumerGroup/existing": "joinGroup",
 	"LeaveConsumerGroup/victim": "leaveGroup", "FetchConsumerGroupAssignments/victim": "groupHeartbeat",
 	"ReportConsumerGroupCoordinator/victim": "reportCoordinator",
@@ -495,6 +495,16 @@ func (e *c15Env) install(p *c15Policy, mode string) (bool, error) {
 		fmt.Fprintf(&b, "p, %s, %s, %s\n", l[0], l[1], l[2])
 	}
 	fmt.Fprintf(&b, "p, __probe, __probe, %s\n", probe)
+	if mode == "sighup-retry" {
+		// a reload that FAILS first (the policy file is not there when the signal arrives - an editor replacing it, a
+		// deployment step in progress); the file is then put in place and the signal sent again: that reload takes effect
+		os.Remove(e.policyPath)
+		if err := syscall.Kill(os.Getpid(), syscall.SIGHUP); err != nil {
+			return false, err
+		}
+		time.Sleep(150 * time.Millisecond)
+		mode = "sighup"
+	}
 	if err := os.WriteFile(e.policyPath, []byte(b.String()), 0644); err != nil {
 		return false, err
 	}
@@ -541,6 +551,7 @@ type c15Fixture struct {
 	vcancel  context.CancelFunc
 	vpart    *partition
 	always   [][3]string
+	cursorOf string // stream whose cursor "cur" (partition 0) the scenario may store
 	cancels  []context.CancelFunc
 	groupsRm [][2]string
 }
@@ -623,6 +634,7 @@ type c15Snap struct {
 	group    string
 	members  map[string]bool
 	victim   string
+	cursor   string // what a fetch of the scenario's cursor returns (only when the scenario names one)
 }
 
 func (e *c15Env) snapshot(fx *c15Fixture) *c15Snap {
@@ -639,6 +651,17 @@ func (e *c15Env) snapshot(fx *c15Fixture) *c15Snap {
 		sn.paused[name] = p.IsPaused()
 		sn.readonly[name] = p.IsReadonly()
 		sn.newest[name] = p.log.NewestOffset()
+	}
+	if fx.cursorOf != "" {
+		// what a FetchCursor would answer (cache included: that is what clients are served from)
+		ctx, cancel := context.WithTimeout(context.Background(), 5*time.Second)
+		off, st := e.s.cursors.GetCursor(ctx, fx.cursorOf, "cur", 0)
+		cancel()
+		if st != nil {
+			sn.cursor = "err"
+		} else {
+			sn.cursor = fmt.Sprint(off)
+		}
 	}
 	if fx.group != "" {
 		sn.group = e.groupFacts(fx.group)
@@ -725,6 +748,9 @@ func c15Diff(before, after *c15Snap, sentinels map[string]int64) []string {
 				kinds["natsPublish"] = true
 			}
 		}
+	}
+	if before.cursor != after.cursor {
+		kinds["setCursor"] = true
 	}
 	if before.group != after.group {
 		changed := false
@@ -1071,7 +1097,19 @@ func (e *c15Env) call(method, shape, polName, mode, identity string) (own bool, 
 			return err
 		}
 	case "SetCursor/set":
+		fx.cursorOf = R
 		fx.always = append(fx.always, [3]string{c15Alice, cursorsStream, "Publish"})
+		do = func(ctx context.Context) error {
+			_, err := api.SetCursor(ctx, &client.SetCursorRequest{Stream: R, Partition: 0, CursorId: "cur", Offset: 3})
+			return err
+		}
+	case "SetCursor/nocursorspublish":
+		// the cursor is stored by a publish into the cursors stream ON BEHALF of the client: the entry that decides is
+		// (client, __cursors, Publish); SetCursor and FetchCursor on the stream itself are granted whatever the policy
+		// under test says. Refused => no cursor is stored: a fetch afterwards answers what it answered before.
+		fx.always = append(fx.always, [3]string{c15Alice, R, "SetCursor"}, [3]string{c15Alice, R, "FetchCursor"})
+		fx.cursorOf = R
+		fx.R, fx.A = cursorsStream, "Publish"
 		do = func(ctx context.Context) error {
 			_, err := api.SetCursor(ctx, &client.SetCursorRequest{Stream: R, Partition: 0, CursorId: "cur", Offset: 3})
 			return err
@@ -1837,7 +1875,7 @@ func c15RunCase(e *c15Env, m *vModel, res *vResult, lines []string) {
 		}
 		one := []string{line}
 		impl := []string{out.String(), out.errText}
-		if mode == "sighup" && !reloadSeen {
+		if (mode == "sighup" || mode == "sighup-retry") && !reloadSeen {
 			c15Spec(res, vFailure{Kind: "spec", Case: one, Impl: impl, Tag: "authz-reload-sighup-ignored",
 				Detail: "SIGHUP did not make the server load the replaced policy file within 3s"})
 		}
@@ -2153,8 +2191,11 @@ func TestVerifC15(t *testing.T) {
 				pol = c15Policies[r.Intn(len(c15Policies))]
 			}
 			mode := "load"
-			if r.Intn(3) == 0 {
+			switch r.Intn(9) {
+			case 0, 1:
 				mode = "sighup"
+			case 2:
+				mode = "sighup-retry"
 			}
 			c = append(c, fmt.Sprintf("call %s %s %s %s", ms.method, sh, pol, mode))
 		}
